@@ -192,8 +192,13 @@ func ReadOptions(r *packet.Reader) Options {
 		tag := binary.BigEndian.Uint16(temp[:2])
 		length := binary.BigEndian.Uint16(temp[2:4])
 
-		// read left value
-		value := make([]byte, length)
+		// read left value; the declared length is untrusted, so the buffer is never sized beyond
+		// what is left to read (one octet more keeps the short-read path below as it was)
+		size := int(length)
+		if rest := r.Remaining(); size > rest {
+			size = rest + 1
+		}
+		value := make([]byte, size)
 		r.ReadBytes(value)
 		if e := r.Error(); e != nil {
 			if errors.Is(r.Error(), io.EOF) {
